@@ -394,6 +394,14 @@ impl World {
           .collect(),
         *sel,
       ),
+      InputSel::TaprootShallow { sel, max_conf } => from(
+        avail
+          .iter()
+          .filter(|(_, u)| u.script.is_p2tr() && height - u.height + 1 <= *max_conf)
+          .map(|(o, _)| *o)
+          .collect(),
+        *sel,
+      ),
       InputSel::Inscribed(k) => {
         let mut holders = Vec::new();
         for i in &m.inscr.list {
@@ -593,8 +601,15 @@ impl World {
     }
   }
 
-  fn resolve_rune_id(&self, m: &Model, r: &RuneIdRef) -> RuneId {
+  fn resolve_rune_id(&self, m: &Model, r: &RuneIdRef, held: &[RuneId]) -> RuneId {
     match r {
+      RuneIdRef::Held(k) => {
+        if held.is_empty() {
+          self.resolve_rune_id(m, &RuneIdRef::Known(*k), held)
+        } else {
+          held[*k as usize % held.len()]
+        }
+      }
       RuneIdRef::Known(k) => {
         let ids = m.runes.known_ids();
         if ids.is_empty() {
@@ -647,6 +662,7 @@ impl World {
     spec: &RunestoneSpec,
     height: u32,
     n_outputs_after: u32,
+    held: &[RuneId],
   ) -> (ScriptBuf, Option<Vec<u8>>) {
     match spec {
       RunestoneSpec::Structured {
@@ -689,13 +705,13 @@ impl World {
           edicts: edicts
             .iter()
             .map(|e| Edict {
-              id: self.resolve_rune_id(m, &e.id),
+              id: self.resolve_rune_id(m, &e.id, held),
               amount: parse_u128(&e.amount),
               output: e.output.unwrap_or(n_outputs_after),
             })
             .collect(),
           etching,
-          mint: mint.as_ref().map(|r| self.resolve_rune_id(m, r)),
+          mint: mint.as_ref().map(|r| self.resolve_rune_id(m, r, held)),
           pointer: *pointer,
         };
         (runestone.encipher(), commit)
@@ -801,7 +817,18 @@ impl World {
     let mut auto_commit = None;
     if let Some(rs) = &spec.runestone {
       let at = spec.runestone_at as usize % (output.len() + 1);
-      let (script, commit) = self.runestone_script(m, rs, height, output.len() as u32 + 1);
+      let mut held: Vec<RuneId> = Vec::new();
+      for o in &taken {
+        if let Some(b) = m.runes.balances.get(o) {
+          for id in b.keys() {
+            if !held.contains(id) {
+              held.push(*id);
+            }
+          }
+        }
+      }
+      held.sort();
+      let (script, commit) = self.runestone_script(m, rs, height, output.len() as u32 + 1, &held);
       auto_commit = commit;
       output.insert(
         at,
